@@ -5,6 +5,7 @@
 package c06
 
 import (
+	"os"
 	"encoding/json"
 	"fmt"
 	"sort"
@@ -67,7 +68,8 @@ var poolKind = map[string]string{"n": "int", "fl": "float", "s": "str", "a": "ar
 	"d3": "arr", "dk": "arr", "dv": "arr", "dm": "arr", "dc": "arr", "dr": "arr", "do": "obj"}
 
 type tcase struct {
-	Ops []string `json:"ops"` // each `tK := expr`
+	Ops []string `json:"ops"`           // each `tK := expr`
+	Fam string   `json:"fam,omitempty"` // "" = pool histories, "closure" = functions observed by calling them
 }
 
 // ---------------------------------------------------------------- fingerprint
@@ -681,6 +683,105 @@ func gen(h *hrunner, thorough bool, emit func(tcase)) {
 	}
 }
 
+// ---------------------------------------------------------------- functions observed by what they return
+
+// A function value "never changes what it ... contains": for closures the observable content is what a call
+// returns. The functions below were yielded by an iterator (closing over its parameters), born from one
+// literal evaluated several times (keyword defaults taken from the enclosing scope) or close over a
+// container; the operations advance/copy the iterator, evaluate the literals again and call the functions.
+// After every operation every probe must print what it printed before the first operation.
+const closurePrelude = `gen := <{|n| yield {|k: n| [n, k]} if n < 6; recur(n + 1)}>
+it := gen.new(0)
+f0 := it.next
+f1 := it.next
+mk := {|d| {|x, by: d| x * by}}
+g2 := mk(2)
+mkm := {|d| m{|x, by: d| [x, by]}}
+m2 := mkm(2)
+acc := {|a| {|| a}}
+h1 := acc([1])
+mki := {|d| <{|x, by: d| yield x * by; recur(x + 1)}>}
+i2 := mki(2)
+`
+
+const closureProbe = "[f0(), f1(), f0.kwargs, g2(5), g2.kwargs, 5.^m2, m2.kwargs, h1(), i2.new(3).next, i2.new(3, by: 4).next, f0, g2]"
+
+var closureOps = []string{
+	"it.next", "u1 := it.next", "it.A", "it@{|f| f()}", "it.new(7).next", "it2 := it.new(9); it2.next", "gen.new(5).next",
+	"mk(3)", "g3 := mk(3)", "[4, 5]@{|i| mk(i)}", "g2(1, by: 9)", "f0(k: 7)", "mkm(3)", "u3 := mkm(4); 9.^u3", "mki(3)", "mki(3).new(1).next", "u4 := i2.new(1); u4.next; u4.next",
+	"acc([2])", "h1() + [3]", "u2 := it.next; u2()",
+}
+
+func genClosure(depth int, emit func(tcase)) {
+	var rec func(ops []string)
+	rec = func(ops []string) {
+		if len(ops) > 0 {
+			emit(tcase{Fam: "closure", Ops: append([]string{}, ops...)})
+		}
+		if len(ops) == depth {
+			return
+		}
+		for _, o := range closureOps {
+			rec(append(ops, o))
+		}
+	}
+	rec(nil)
+}
+
+func (h *hrunner) runClosure(t tcase) {
+	c := h.c
+	r := c.R()
+	env := object.NewEnclosedEnv(r.Root)
+	pre := h.parse(closurePrelude)
+	probe := h.parse(closureProbe)
+	if pre == nil || probe == nil {
+		c.HarnessError("closure prelude/probe does not parse")
+		return
+	}
+	o := r.Guard(env, "", func() object.PanObject { return evaluator.Eval(pre, env) })
+	if o.Kind != "value" {
+		c.HarnessError("closure prelude failed: %s", o.Short())
+		return
+	}
+	c.State(1)
+	look := func() string {
+		o := r.Guard(env, "", func() object.PanObject { return evaluator.Eval(probe, env) })
+		if o.Kind == "value" {
+			return safeRepr(o.Val)
+		}
+		return o.Short()
+	}
+	want := look()
+	if !strings.HasPrefix(want, "[") {
+		c.HarnessError("closure probe is not a value: %s", want)
+		return
+	}
+	for i, opSrc := range t.Ops {
+		prog := h.parse(opSrc)
+		if prog == nil {
+			c.HarnessError("closure operation does not parse: %s", opSrc)
+			return
+		}
+		res := r.Guard(env, "", func() object.PanObject { return evaluator.Eval(prog, env) })
+		c.Transition(1)
+		c.Outcome("closure:" + res.Kind)
+		if res.Kind == "value" && i == len(t.Ops)-1 {
+			c.Nontrivial(1)
+		}
+		c.Validated(1)
+		got := look()
+		if os.Getenv("C06_DEBUG") != "" {
+			fmt.Fprintf(os.Stderr, "DEBUG want=%s\n got=%s res=%s\n", want, got, res.Short())
+		}
+		if got != want {
+			c.Violation(core.Violation{Key: "function-result-changed/" + opShape(opSrc), Case: core.JSON(t), Desc: strings.Join(t.Ops[:i+1], "; "),
+				Expected: want + " (what the functions returned and showed before the operations)", Observed: got,
+				Repro: closurePrelude + strings.Join(t.Ops[:i+1], "\n") + "\n" + closureProbe + ".p\n"})
+			return
+		}
+	}
+}
+
 func sharesOperand(o1, o2 string) bool {
 	for _, v := range poolVars {
 		if containsWord(o1, v) && containsWord(o2, v) {
@@ -699,11 +800,16 @@ func run(c *core.Ctx) {
 	}
 	var cases []tcase
 	gen(h, c.Thorough(), func(t tcase) { cases = append(cases, t) })
+	genClosure(c.Pick(3, 4), func(t tcase) { cases = append(cases, t) })
 	c.Note("histories_total", len(cases))
 	tk.Sharded(c, len(cases), func(i int) {
 		c.Eval(1)
 		if i%5003 == 0 {
 			c.Sample(map[string]interface{}{"pool": poolVars, "history": cases[i].Ops})
+		}
+		if cases[i].Fam == "closure" {
+			h.runClosure(cases[i])
+			return
 		}
 		h.runHistory(cases[i])
 	})
@@ -720,5 +826,9 @@ func replay(c *core.Ctx, raw json.RawMessage) {
 		return
 	}
 	c.Eval(1)
+	if t.Fam == "closure" {
+		h.runClosure(t)
+		return
+	}
 	h.runHistory(t)
 }
